@@ -218,17 +218,20 @@ def weak_sweep(ctx):
     import xvlib
     q = ctx.quick
     build(['deque', 'seqlock', 'leftright', 'reclaim', 'queue_ms', 'queue_ram', 'queue_nik', 'queue_bounded', 'queue_kirsch', 'hm', 'vy'])
-    xvlib.EXTRA_ALL[0] = '--weak 2'
-    try:
-        n0 = len(ctx.tv)
-
-        def one(drv, kind, progs):
-            x = explore(ctx, 'weak_%s' % drv, drv, progs, mode='dfs', pb=1 if q else 2, max_exec=1200 if q else 40000, max_steps=6000)
-            add_tv_stats(check_histories(ctx, x['name'], drv, 'WeakSafe', {'Kind': kind}, x, known_preds=WEAK_KNOWN.get(drv, ())), [x])
-        run_parallel([lambda d=d, k=k, p=p: one(d, k, p) for d, k, p in weak_programs(q)], maxw=6)
-        log('  W weak-memory executions: %d explorations validated' % (len(ctx.tv) - n0))
-    finally:
-        xvlib.EXTRA_ALL[0] = ''
+    n0 = len(ctx.tv)
+    # two passes: ONE stale read per execution at every position of (nearly) sequential schedules - complete within the budget, since the depth-first
+    # enumeration varies the LAST decisions first and a budget cut would otherwise never reach stale reads early in an operation -, then two stale
+    # reads under preemption
+    for tag, flag, pb, mx in (('weak1', '--weak 1', 1, 12000 if q else 60000), ('weak', '--weak 2', 1 if q else 2, 1200 if q else 40000)):
+        xvlib.EXTRA_ALL[0] = flag
+        try:
+            def one(drv, kind, progs):
+                x = explore(ctx, '%s_%s' % (tag, drv), drv, progs, mode='dfs', pb=pb, max_exec=(mx // 5 if drv == 'reclaim' and tag == 'weak1' else mx), max_steps=6000)
+                add_tv_stats(check_histories(ctx, x['name'], drv, 'WeakSafe', {'Kind': kind}, x, known_preds=WEAK_KNOWN.get(drv, ())), [x])
+            run_parallel([lambda d=d, k=k, p=p: one(d, k, p) for d, k, p in weak_programs(q)], maxw=6)
+        finally:
+            xvlib.EXTRA_ALL[0] = ''
+    log('  W weak-memory executions: %d explorations validated' % (len(ctx.tv) - n0))
 
 
 def run(ctx):
